@@ -43,6 +43,25 @@ theorem second_resolution_keeps_value (c : String) (hc : c ≠ "environment") (t
     resolveObj c top (resolveObj c (mergeEnv top file) v) = resolveObj c (mergeEnv top file) v :=
   resolveObj_second c hc top file v
 
+/-- **nested includes**: the model of the innermost file is resolved again by every model on the way up; as long as the
+innermost environment extends each of them (it does: every include merges its env file *under* the environment it
+is given, `merge_extends`), the value found first survives any number of later resolutions.  The outermost resolution is
+the head of `outer`. -/
+theorem resolution_chain_keeps_value (c : String) (hc : c ≠ "environment") {big : Env} (v : Val)
+    (outer : List Env) (h : ∀ e ∈ outer, EnvExtends e big) :
+    outer.foldr (fun e acc => resolveObj c e acc) (resolveObj c big v) = resolveObj c big v :=
+  resolveObj_chain c hc v outer h
+
+/-- the include's environment extends the including one, and so on transitively -/
+theorem merge_extends (top file file2 : Env) :
+    EnvExtends top (mergeEnv top file) ∧ EnvExtends top (mergeEnv (mergeEnv top file) file2) :=
+  ⟨EnvExtends_mergeEnv top file, EnvExtends_trans (EnvExtends_mergeEnv top file) (EnvExtends_mergeEnv _ file2)⟩
+
+/-- non-vacuity: two levels of include, the variable is defined by the innermost env file only -/
+example : [[("A", "a")], mergeEnv [("A", "a")] [("B", "b")]].foldr (fun e acc => resolveObj xValue e acc)
+      (resolveObj xValue (mergeEnv (mergeEnv [("A", "a")] [("B", "b")]) [("V", "inner")]) (.map [("environment", .str "V")])) =
+    .map [("environment", .str "V"), (xValue, .str "inner")] := by rfl
+
 /-- the same for a whole section of a model -/
 theorem second_resolution_keeps_section (sect c : String) (hc : c ≠ "environment") (top file : Env) (dict : KVs) :
     resolveSection sect c top (resolveSection sect c (mergeEnv top file) dict) = resolveSection sect c (mergeEnv top file) dict :=
